@@ -239,7 +239,7 @@ PROPS = {
     },
     "C02": {
         "title": "Emission follows the configured schedule, independent of block cadence",
-        "model": "Minter.v: amount_to_mint, mint_rec (hand-over recursion), mint, begin_block, params_valid",
+        "model": "Minter.v: amount_to_mint, mint_rec (hand-over recursion), mint, begin_block, params_valid; MinterFaults.v: node_block, run_node (blocks stopped by a refusing bank are not committed)",
         "runs": [minter(150, 6000)],
         "preds": ["C02."],
         "rule": MINTER_RULE,
@@ -251,7 +251,9 @@ PROPS = {
                       "floor(schedule(now)+carry) whatever happened before (partition independence); hand-over writes the full counter to history and "
                       "passes exactly the fractional remainder; carries telescope to floor of the exact sum; linear periods hit exactly their amount "
                       "at the end and are monotone; exponential epoch sums are monotone. Model compared with the real BeginBlocker on 2-3 partitions "
-                      "per configuration on every run; cumulative vs an independent schedule oracle.",
+                      "per configuration on every run; cumulative vs an independent schedule oracle. Refusing bank (C02_refused_bank_calls_lose_nothing_and_emit_nothing_twice): "
+                      "over every pattern of blocks stopped by a refused bank call that lets the last block through, the committed history mints the same total; on the "
+                      "implementation the minter keeper runs on a bank that refuses MintCoins or the transfer to the collector in chosen blocks, only blocks that return are committed.",
     },
     "C19": {
         "title": "Reported inflation equals the actual annualised emission rate",
